@@ -77,3 +77,16 @@ mutant("c11-unflatten-ref-longer", ["C11"], [
     ("src/sequence.rs", "    type Output = &'a GenericArray<GenericArray<T, N>, Quot<NM, N>>;", "    type Output = &'a GenericArray<GenericArray<T, N>, NM>;")], "C11.E")
 mutant("c11-flatten-mut-from-shared-cast", ["C11"], [("src/sequence.rs", "    type Output = &'a mut GenericArray<T, Prod<N, M>>;\n\n    #[inline(always)]\n    fn flatten(self) -> Self::Output {\n        unsafe { mem::transmute(self) }", "    type Output = &'a mut GenericArray<T, Prod<N, M>>;\n\n    #[inline(always)]\n    fn flatten(self) -> Self::Output {\n        unsafe { mem::transmute(&mut self[M::USIZE - M::USIZE.min(1)]) }")], "C11.E")
 benign("c11-flatten-ref-ptr-cast", ["C11"], [("src/sequence.rs", "    type Output = &'a GenericArray<T, Prod<N, M>>;\n\n    #[inline(always)]\n    fn flatten(self) -> Self::Output {\n        unsafe { mem::transmute(self) }", "    type Output = &'a GenericArray<T, Prod<N, M>>;\n\n    #[inline(always)]\n    fn flatten(self) -> Self::Output {\n        unsafe { mem::transmute::<&'a GenericArray<GenericArray<T, N>, M>, Self::Output>(self) }")])
+
+# ---- C01 ------------------------------------------------------------------------------------
+_ODD = "#[repr(C)]\n#[doc(hidden)]\npub struct GenericArrayImplOdd<T, U> {\n    parent1: U,\n    parent2: U,\n    data: T,\n}"
+_EVEN = "#[repr(C)]\n#[doc(hidden)]\npub struct GenericArrayImplEven<T, U> {\n    parent1: U,\n    parent2: U,\n    _marker: PhantomData<T>,\n}"
+mutant("c01-odd-no-repr-c", ["C01"], [("src/lib.rs", _ODD, _ODD.replace("#[repr(C)]\n", ""))], "C01.S")
+mutant("c01-even-tag-field", ["C01"], [("src/lib.rs", _EVEN, _EVEN.replace("    _marker: PhantomData<T>,", "    _marker: PhantomData<T>,\n    _tag: [u8; 0],\n    _tag2: (),\n    _pad: core::mem::MaybeUninit<u8>,"))], "C01.")
+mutant("c01-base-u8-array", ["C01"], [("src/lib.rs", "type ArrayType<T> = [T; 0];", "type ArrayType<T> = [u8; 0];")], "C01.")
+mutant("c01-odd-packed", ["C01"], [("src/lib.rs", _ODD, _ODD.replace("#[repr(C)]", "#[repr(C, packed)]"))], "C01.")
+mutant("c01-even-align16", ["C01"], [("src/lib.rs", _EVEN, _EVEN.replace("#[repr(C)]", "#[repr(C, align(16))]"))], "C01.")
+mutant("c01-wrapper-rust-repr", ["C01"], [("src/lib.rs", "#[repr(transparent)]\npub struct GenericArray<T, N: ArrayLength> {", "pub struct GenericArray<T, N: ArrayLength> {")], "C01.S")
+mutant("c01-const-transmute-no-guard", ["C01"], [("src/lib.rs", "if mem::size_of::<A>() != mem::size_of::<B>() {\n        panic!(\"Size mismatch for generic_array::const_transmute\");", "if mem::size_of::<A>() < mem::size_of::<B>() {\n        panic!(\"Size mismatch for generic_array::const_transmute\");")], "C01.T")
+benign("c01-odd-fields-reordered", ["C01"], [("src/lib.rs", _ODD, _ODD.replace("    parent1: U,\n    parent2: U,\n    data: T,", "    data: T,\n    parent1: U,\n    parent2: U,"))])
+benign("c01-wrapper-repr-c", ["C01"], [("src/lib.rs", "#[repr(transparent)]\npub struct GenericArray<T, N: ArrayLength> {", "#[repr(C)]\npub struct GenericArray<T, N: ArrayLength> {")])
